@@ -83,8 +83,10 @@ def units(tier, seed):
 def run_unit(unit, ctx):
     if unit["kind"] == "acl":
         shape = shapes(_N(ctx.tier))[unit["shape"]]
-        for mode in ("explicit", "prefix"):
+        for mode in ("explicit", "prefix", "mixed"):
             if mode == "prefix" and 0 in shape:
+                continue
+            if mode == "mixed" and sum(1 for p in shape if p) < 2:
                 continue
             for prev in PREV:
                 for start, step in product(STARTS, STEPS):
@@ -200,6 +202,24 @@ def _build(platform, cls, shape, mode, prev_):
             top.append(glines)
     if cls == "AceGroup":
         obj = AceGroup("\n".join(flat_lines), platform=platform)
+    elif mode == "mixed":
+        # the item list is a MIXTURE: strings, AceGroup objects, and for every second group the
+        # dictionary exported from the previous group (same identifier, another object)
+        items, prev = [], None
+        for p in top:
+            if isinstance(p, list):
+                grp = AceGroup(items=list(p), platform=platform)
+                if prev is not None and len(prev.items) == len(p):
+                    d = prev.data(uuid=True)
+                    d["line"] = grp.line
+                    d["items"] = [dict(x.data(uuid=True)) for x in grp.items]
+                    items.append(d)
+                else:
+                    items.append(grp)
+                prev = grp
+            else:
+                items.append(p)
+        obj = Acl(name="A", platform=platform, items=items)
     elif mode == "prefix":
         obj = Acl(PR.header(platform) + "\n" + "\n".join(" " + x for x in flat_lines),
                   platform=platform, group_by="= ")
